@@ -208,7 +208,7 @@ def raster(draw, accessor=False):
         ok = [o and v != 0 for o, v in zip(ok, vals)]
     if dt in ("float64", "int32") and draw(st.integers(0, 2)) == 0:
         # valid pixels right next to the nodata value (they are data: only pixels EQUAL to nodata are missing)
-        k = draw(st.integers(1, 4))
+        k = min(draw(st.integers(1, 4)), n)
         for q in draw(st.lists(st.integers(0, n - 1), min_size=k, max_size=k, unique=True)):
             if dt == "float64":
                 vals[q] = float(np.nextafter(nd, 0)) if draw(st.booleans()) else nd + draw(st.sampled_from([1e-4, -1e-4, 1e-9 * max(1.0, abs(nd))]))
